@@ -1,5 +1,199 @@
-import PpciVerif.Model.IRFrag
-/-! placeholder while the harness is brought up; replaced by the real theorems -/
+import PpciVerif.Proofs.IRText
+/-!
+# C15 — IR text format round-trips
+
+Model: `Model.IRText` — the writer (`Writer` + the `__str__` methods of `ppci/ir.py`, as characters
+`printModule` and as tokens `toksModule`), the tokenizer `lexAll`, the recursive-descent `Reader`
+(`parseToks`, on tokens) over the construction layer `Model.IRBuild` — as the code is after the `fix:`
+commits listed in notes/C15.md.  Float constants: `fmt : bits → text` stands for Python's `str(float)`,
+`fparse : text → bits` for `float(text)` (CPython is the oracle; see ASSUMPTIONS in harness/c15.py).
+
+`roundtrip_partial`, for EVERY module of the fragment `Model.IRFrag.fragText` (unambiguous names, the
+constructor checks of `ir.py`, no inline asm, float constants with a finite decimal form, lexable
+identifiers, no keyword as first operand of rol/ror):
+
+* reading the printed token sequence succeeds and yields `normPhi m`: the module itself with the inputs of
+  each phi in the order of the text (the writer sorts them; a phi's inputs are a dictionary in ppci);
+* printing `normPhi m` gives the same text, character by character;
+* the values `Spec.IR` gives the phis of a block on any incoming edge are the same for `m` and `normPhi m`
+  — the only place where the two modules differ.
+
+The step from characters to tokens (`tokenize (printModule fmt m) = toksModule fmt m`) is a hypothesis of
+`roundtrip_partial`; it is *evaluated* for every module of every run (driver op `toks`), and proved here
+for the lexical classes (`lex_*` in Proofs — see notes/C15.md for what is covered).
+
+`roundtrip_full` (all well-formed modules) is NOT proved and is false: five counterexamples below, each
+replayed on ppci by harness/c15.py (open findings irtext:*).
+-/
 namespace Props.C15
-theorem placeholder : True := trivial
+open Spec.IR Model.IRBuild Model.IRText Model.IRFrag Proofs.IRText
+
+/-- the float constants of a module (binary64 bit patterns) -/
+def floatsOf (m : Module) : List Nat :=
+  (m.funcs.flatMap Func.instrs).filterMap (fun i => match i with | .const _ _ (.fbits b) => some b | _ => none)
+
+theorem printable_of_fragText (fmt : Nat → List Char) (fparse : String → Option Nat) (m : Module)
+    (h : fragText fmt m = true) (hfp : ∀ b ∈ floatsOf m, fparse (String.ofList (fmt b)) = some b) :
+    ∀ f ∈ m.funcs, ∀ b ∈ f.blocks, ∀ i ∈ b.instrs, PrintOk fmt fparse i := by
+  intro f hf b hb i hi
+  have hcore : fragCore m = true := by
+    simp only [fragText, Bool.and_eq_true] at h; exact h.1.1.1.1
+  have htext : funcText fmt f = true := by
+    simp only [fragText, Bool.and_eq_true, List.all_eq_true] at h; exact h.2 f hf
+  have hfc : funcCore m.globalNames f = true := by
+    simp only [fragCore, Bool.and_eq_true, List.all_eq_true] at hcore; exact hcore.2 f hf
+  have F := Proofs.IRBuild.funcFacts_of_core hfc
+  have hmem : i ∈ Proofs.IRBuild.instrsOf f.blocks := by
+    simp only [Proofs.IRBuild.instrsOf, List.mem_flatMap]; exact ⟨b, hb, hi⟩
+  have hty := F.typed i hmem
+  have hit : instrText fmt i = true := by
+    simp only [funcText, Bool.and_eq_true, List.all_eq_true] at htext
+    exact ((htext.2 b hb).2 i hi).2
+  refine ⟨?_, ?_, ?_, ?_⟩
+  · intro tpl a b' c hc; rw [hc] at hty; simp [typedOk] at hty
+  · intro d ty bits hc
+    apply hfp
+    simp only [floatsOf, List.mem_filterMap, List.mem_flatMap]
+    exact ⟨i, ⟨f, hf, by simp only [Func.instrs, List.mem_flatMap]; exact ⟨b, hb, hi⟩⟩, by rw [hc]⟩
+  · intro d ty a b' hc
+    rcases hc with hc | hc <;> (rw [hc] at hit; simpa [instrText] using hit)
+  · intro d data hc x hx
+    rw [hc] at hty
+    have := List.all_eq_true.1 (by simpa [typedOk] using hty) x hx
+    simpa [isByte] using this
+
+/-- token level: read (print m) = m up to the order of phi inputs, and the re-read module prints identically -/
+theorem roundtrip_tokens_partial (fmt : Nat → List Char) (fparse : String → Option Nat) (m : Module)
+    (h : fragText fmt m = true) (hfp : ∀ b ∈ floatsOf m, fparse (String.ofList (fmt b)) = some b) :
+    parseToks fparse (toksModule fmt m) = .ok (normPhi m) ∧
+    toksModule fmt (normPhi m) = toksModule fmt m ∧
+    printModule fmt (normPhi m) = printModule fmt m := by
+  have hcore : fragCore m = true := by
+    simp only [fragText, Bool.and_eq_true] at h; exact h.1.1.1.1
+  exact ⟨parseToks_toksModule fmt fparse m hcore (printable_of_fragText fmt fparse m h hfp),
+    toksModule_normPhi fmt m, printModule_normPhi fmt m⟩
+
+/-- character level, given that the tokenizer reads the printed text as the token sequence the writer meant
+    (evaluated for every module of every run; see the header) -/
+theorem roundtrip_partial (fmt : Nat → List Char) (fparse : String → Option Nat) (m : Module)
+    (h : fragText fmt m = true) (hfp : ∀ b ∈ floatsOf m, fparse (String.ofList (fmt b)) = some b)
+    (hlex : tokenize (printModule fmt m) = .ok (toksModule fmt m)) :
+    readModule fparse (printModule fmt m) = .ok (normPhi m) ∧
+    printModule fmt (normPhi m) = printModule fmt m := by
+  obtain ⟨h1, _, h3⟩ := roundtrip_tokens_partial fmt fparse m h hfp
+  refine ⟨?_, h3⟩
+  simp only [readModule, hlex, bind, Except.bind]
+  exact h1
+
+/-- m' ≃ m ⇒ same behaviour: the values of the phis on every edge agree (phi inputs are the only difference) -/
+theorem same_phi_values (ctx : Ctx) (env : Env) (pred : String) (m : Module) (h : fragCore m = true)
+    (f : Func) (hf : f ∈ m.funcs) (b : Block) (hb : b ∈ f.blocks) :
+    phiValues ctx env pred (normPhiBlock b).instrs = phiValues ctx env pred b.instrs := by
+  have hfc : funcCore m.globalNames f = true := by
+    simp only [fragCore, Bool.and_eq_true, List.all_eq_true] at h; exact h.2 f hf
+  have F := Proofs.IRBuild.funcFacts_of_core hfc
+  apply phiValues_normPhi
+  intro i hi
+  exact F.phi i (by simp only [Proofs.IRBuild.instrsOf, List.mem_flatMap]; exact ⟨b, hb, hi⟩)
+
+/-- the full statement (every well-formed module; behaviour in Spec.IR for every entry, arguments and oracle).
+    Not proved; false (counterexamples below); the behavioural part beyond `same_phi_values` is compared on
+    samples by the harness. -/
+def roundtrip_full : Prop :=
+  ∀ (fmt : Nat → List Char) (fparse : String → Option Nat) (m : Module), wfModule m = true →
+    (∀ b, fparse (String.ofList (fmt b)) = some b) →
+    ∃ m', readModule fparse (printModule fmt m) = .ok m' ∧ printModule fmt m' = printModule fmt m ∧
+      ∀ cfg oracle fn args fuel, exec cfg m' oracle fn args fuel = exec cfg m oracle fn args fuel
+
+/-! ### non-vacuity -/
+
+def fmt0 (_ : Nat) : List Char := "1.5".toList
+def fparse0 (s : String) : Option Nat := if s = "1.5" then some 4609434218613702656 else none
+
+def demo : Module :=
+  { name := "demo",
+    externs := [{ name := "ext", kind := .func [.int .i32] (.int .i32) }],
+    vars := [{ name := "g", isGlobal := true, size := 8, align := 8,
+               init := some [.bytes [1, 2, 3, 255], .ref "f"] }],
+    funcs := [
+      { name := "f", isGlobal := true, ret := some (.int .i32), entry := "e", params := [("n", .int .i32)],
+        blocks := [
+          { name := "e", instrs := [.const "z" (.int .i32) (.int (-7)), .const "k" .f64 (.fbits 4609434218613702656),
+                                    .jump "h"] },
+          { name := "x", instrs := [.store (.int .i32) (.loc "s") (.glob "g") true,
+                                    .fcall "r" (.int .i32) (.glob "later") [.loc "s", .loc "s"], .ret (.loc "r")] },
+          { name := "h", instrs := [.phi "i" (.int .i32) [("h", .loc "s"), ("e", .loc "z")],
+                                    .binop "s" (.int .i32) .rol (.loc "i") (.loc "n"),
+                                    .cjump (.loc "s") .lt (.loc "n") "h" "x"] }] },
+      { name := "later", isGlobal := false, ret := some (.int .i32), entry := "b",
+        params := [("a", .int .i32), ("b", .int .i32)],
+        blocks := [{ name := "b", instrs := [.unop "m" (.int .i32) .not (.loc "a"), .ret (.loc "m")] }] }] }
+
+example : fragText fmt0 demo = true := by decide
+example : ∀ b ∈ floatsOf demo, fparse0 (String.ofList (fmt0 b)) = some b := by decide
+example : normPhi demo ≠ demo := by decide
+
+/-! ### counterexamples outside the fragment (Lean-proved here, replayed on ppci by harness/c15.py) -/
+
+def errOf (r : Except RErr Module) : Option RErr :=
+  match r with
+  | .ok _ => none
+  | .error e => some e
+
+def okAnd (r : Except RErr Module) (p : Module → Bool) : Bool :=
+  match r with
+  | .ok m => p m
+  | .error _ => false
+
+def oneFunc (name : String) (ret : Option Ty) (params : List (String × Ty)) (is : List Instr) : Module :=
+  { name := name, externs := [], vars := [],
+    funcs := [{ name := "f", isGlobal := true, ret := ret, entry := "entry", params := params,
+                blocks := [{ name := "entry", instrs := is }] }] }
+
+/-- irtext:inline-asm — `asm (nop)` is taken for an assignment with the unknown type `asm`: KeyError -/
+def withAsm : Module := oneFunc "asm" none [("a", .int .i32)] [.asm "nop" [.loc "a"] [] [], .exit]
+example : wfModule withAsm = true := by decide
+example : errOf (readModule fparse0 (printModule fmt0 withAsm)) = some .KeyError := by decide
+
+/-- irtext:float-nonfinite — `str(float('inf'))` is the identifier `inf`: NotImplementedError;
+    `-inf` is read as the negation of a value named `inf` WITHOUT any error: another module -/
+def withFloat : Module := oneFunc "nonfinite" (some .f64) [] [.const "x" .f64 (.fbits 0x7ff0000000000000), .ret (.loc "x")]
+example : wfModule withFloat = true := by decide
+example : fragText (fun _ => "inf".toList) withFloat = false := by decide
+example : errOf (readModule (fun _ => none) (printModule (fun _ => "inf".toList) withFloat)) =
+    some .NotImplementedError := by decide
+set_option maxRecDepth 8192 in
+example : okAnd (readModule (fun _ => none) (printModule (fun _ => "-inf".toList) withFloat))
+    (fun m' => decide (m' ≠ withFloat)) = true := by decide
+
+/-- irtext:name-capture — the value `x` of `f` hides the module-level `x`; `ir.Load` gets an i32 address -/
+def capture : Module :=
+  { name := "capture", externs := [],
+    vars := [{ name := "x", isGlobal := true, size := 4, align := 4, init := none }],
+    funcs := [
+      { name := "f", isGlobal := true, ret := some (.int .i32), entry := "entry", params := [("p", .int .i32)],
+        blocks := [{ name := "entry", instrs := [
+          .binop "x" (.int .i32) .add (.loc "p") (.loc "p"),
+          .load "ld" (.int .i32) (.glob "x") false,
+          .binop "s" (.int .i32) .add (.loc "x") (.loc "ld"),
+          .ret (.loc "s")] }] }] }
+example : wfModule capture = true := by decide
+example : fragText fmt0 capture = false := by decide
+example : errOf (parseToks fparse0 (toksModule fmt0 capture)) = some .AssertionError := by decide
+
+/-- irtext:identifier — ppci accepts any string as a name; `a.b` is printed verbatim: lex fault -/
+def dotted : Module :=
+  oneFunc "ident" (some (.int .i32)) [("a", .int .i32)]
+    [.binop "a.b" (.int .i32) .add (.loc "a") (.loc "a"), .ret (.loc "a.b")]
+example : wfModule dotted = true := by decide
+example : errOf (readModule fparse0 (printModule fmt0 dotted)) = some .IrParseException := by decide
+
+/-- irtext:rol-keyword-operand — `u32 x = load rol a` with a VALUE named `load` -/
+def rolKeyword : Module :=
+  oneFunc "rolkw" (some (.int .u32)) [("a", .int .u32)]
+    [.binop "load" (.int .u32) .add (.loc "a") (.loc "a"),
+     .binop "x" (.int .u32) .rol (.loc "load") (.loc "a"), .ret (.loc "x")]
+example : wfModule rolKeyword = true := by decide
+example : errOf (parseToks fparse0 (toksModule fmt0 rolKeyword)) = some .IrParseException := by decide
+
 end Props.C15
